@@ -91,7 +91,7 @@ CHECKS["C02"] = dict(
          "order it uses - and the tag itself follows from the text beginning with '<' (accepted_element_text_is_a_spelling, via Xml/FirstTag.v: a complete document that begins with '<' begins with '<' + its root tag); the canonical text to_string writes is an instance (printed_message_is_a_spelling). End-to-end theorems with nothing assumed "
          "of the parser: any_accepted_stream_is_framed(_promptly) for streams of any accepted spellings and opener-free junk, "
          "every_stream_of_written_messages_is_read_back / written_messages_are_delivered_promptly for what the library writes - ANY cut into pieces, "
-         "exactly the messages in order, each as soon as its last byte arrived; the only hypothesis left is that each message fits the threshold (K1). "
+         "exactly the messages in order, each as soon as its last byte arrived; the only hypothesis left is that each message fits the threshold (K1). Several connections in one process: each is framed as if it were alone, whatever reaches the others (connections_do_not_disturb_each_other, each_connection_is_framed_whatever_the_others_receive). "
          "Correspondence: real "
          "Buffer and the three real receive loops vs the model with the concrete XML+message parser; every 1-cut, every 2-cut of short streams, "
          "per-character, random cuts, three thresholds.",
